@@ -50,6 +50,7 @@ func checkResult(c *vcase.Case, m *vcase.Model, ret *returned) string {
 
 func TestC03(t *testing.T) {
 	p := detProfile()
+	p.MoreTwoRefs = 4 // results computed from two producers: the result has to wait for both
 	runProperty(t, "C03",
 		func(rt *rapid.T) *vcase.Case { return vcase.GenCase(rt, p, "C03") },
 		func(st *Stats, c *vcase.Case) string {
